@@ -87,8 +87,8 @@ type c17Case struct {
 	Filter []uint32 `json:"filter,omitempty"` // -sflow-type-filter a,b,c
 	// FilterSplit in 1..len(Filter)-1: the list is given by two occurrences of the flag, the first FilterSplit entries
 	// in one and the rest in the other: every type the operator lists on the command line is in the filter
-	FilterSplit int `json:"filter_split,omitempty"`
-	EqForm bool     `json:"eq_form"`          // -k=v instead of -k v for non-boolean flags
+	FilterSplit int  `json:"filter_split,omitempty"`
+	EqForm      bool `json:"eq_form"` // -k=v instead of -k v for non-boolean flags
 	// ConfigPos: where "-config <file>" stands among the command-line settings (0 = first, n = after n of them)
 	ConfigPos int `json:"config_pos,omitempty"`
 	// ConfigVia: how the path given to -config reaches the file: "" = plain path, "symlink" = a symbolic link to the
